@@ -9,6 +9,7 @@ import (
 	"errors"
 	"fmt"
 	"io"
+	"log/slog"
 	"net/http"
 	"sort"
 	"strings"
@@ -334,9 +335,21 @@ func project(n *simreg.Net, names []string) map[string]hostState {
 	return out
 }
 
+// fixtureBlobs: digests of the contents the operations upload (other new blobs, e.g. the
+// time-stamped dummy config of the tag-delete fall-back, differ from run to run).
+var fixtureBlobs = func() map[string]bool {
+	f := theFixture
+	out := map[string]bool{}
+	for _, b := range [][]byte{f.conf, f.layer1, f.layer2, f.other, f.empty, f.newBlob} {
+		out[sha(b)] = true
+	}
+	return out
+}()
+
 // sameEffect: the tags and manifests are those of the fault-free run; a blob that existed
-// before the operation is present exactly when it is after the fault-free run; a blob the
-// fault-free run created exists; additional blobs (left-overs of a fall-back) do not count.
+// before the operation is present exactly when it is after the fault-free run; a blob of the
+// fixture that the fault-free run created exists; additional blobs (left-overs of a fall-back,
+// time-stamped dummies) do not count.
 func sameEffect(init, ff, got map[string]hostState) bool {
 	for name, f := range ff {
 		g, i := got[name], init[name]
@@ -359,7 +372,7 @@ func sameEffect(init, ff, got map[string]hostState) bool {
 			}
 		}
 		for k := range f.Blobs {
-			if !g.Blobs[k] {
+			if _, dig, _ := strings.Cut(k, "@"); fixtureBlobs[dig] && !g.Blobs[k] {
 				return false
 			}
 		}
@@ -499,7 +512,8 @@ func (x *l2Exec) l2Exec(ctx context.Context, op l2Op, done chan<- struct{}, res 
 	hosts = append(hosts, up)
 	di := time.Duration(s.DIus) * time.Microsecond
 	opts := []reg.Opts{reg.WithConfigHosts(hosts), reg.WithHTTPClient(x.net.Client()),
-		reg.WithDelay(di, 4*di), reg.WithRetryLimit(s.R)}
+		reg.WithDelay(di, 4*di), reg.WithRetryLimit(s.R),
+		reg.WithSlog(slog.New(slog.NewTextHandler(io.Discard, &slog.HandlerOptions{})))}
 	if op.chunk {
 		opts = append(opts, reg.WithBlobSize(1000, 1500))
 	}
